@@ -176,6 +176,8 @@ fn twin_generic_method_noparent() {
     kani::cover!(i >= 2);
 }
 
+// NOT REGISTERED: the plain async shape (in_span inside the async state machine) runs out of
+// memory at 30 GB (3 M steps, 20 M variables) or does not finish symbolic execution.
 #[kani::proof]
 #[kani::unwind(5)]
 fn twin_async_noparent() {
